@@ -46,7 +46,22 @@ fn main() {
                 seed,
                 &config,
             );
-            if !vharness::run_check(&id, &mut r, &ctx) {
+            // A panic that escapes every per-case judge (e.g. while a check probes which backends exist) still comes
+            // from executing the code under test on a fixed input: it is reported as a violation with the panic
+            // message, never as an engine crash. On the unchanged tree no check panics.
+            let known = match std::panic::catch_unwind(std::panic::AssertUnwindSafe(|| vharness::run_check(&id, &mut r, &ctx))) {
+                Ok(k) => k,
+                Err(p) => {
+                    let msg = p.downcast_ref::<&str>().map(|s| s.to_string()).or_else(|| p.downcast_ref::<String>().cloned()).unwrap_or_else(|| "non-string panic".into());
+                    r.violations.push(vharness::report::Violation {
+                        section: "panic-outside-cases".into(),
+                        summary: format!("the code under test panicked while check {id} was preparing or running an enumeration (outside a single judged case): {msg}"),
+                        replay: serde_json::json!({"kind": "panic-in-case", "key": "panic-outside-cases", "check": id}),
+                    });
+                    true
+                }
+            };
+            if !known {
                 eprintln!("MACHINERY ERROR: unknown check {id}");
                 std::process::exit(2);
             }
